@@ -18,7 +18,7 @@ for d in $IDS; do
   git -C "$WT" apply "$HERE/seeded/$d/patch.diff" || { echo "$d patch-does-not-apply" >> "$OUT"; continue; }
   prop=$(echo "$d" | cut -c1-3)
   checks="$prop"
-  case "$d" in C13b|C07c|C08d|C11d|C01e|C02e|C01f|C04f|C09f|C07g) checks="C03";; C11e) checks="C20";; C07b) checks="C07 C03";; C05g) checks="C05 C03";; esac
+  case "$d" in C13b|C07c|C08d|C11d|C01e|C02e|C01f|C04f|C09f|C07g|C07i|C13i) checks="C03";; C11e) checks="C20";; C07b) checks="C07 C03";; C05g) checks="C05 C03";; C11i) checks="C16 C19";; esac
   for c in $checks; do
     VERIF_REPO="$WT" ./check "$c" --tier quick > /tmp/replay_$$.log 2>&1; rc=$?
     b=$(grep -v KNOWN-FINDING /tmp/replay_$$.log | grep -m1 "bucket=" | sed 's/detail=.*//' | cut -c1-120)
